@@ -127,3 +127,13 @@ TEXTS.update({
     ('C09', 'element-dropped'): {'site': 'parser: class lookup by eval(convert_to_xml_class_name(tag)) capitalises each hyphen-separated part, so `Part-group` and `part-group` map to the same class',
         'what': 'an element whose (damaged) name differs from a schema name only in the case of a leading letter is read as that schema element: the input element name is silently altered'},
 })
+TEXTS.update({
+    ('C12', 'unique-arrangement-not-serialised'): {'site': '_check_if_choice_requires_elements raises NotImplementedError for two elements in a required choice leaf; first-fit placement (' + CHOICE + ')',
+        'what': 'a complete collection with exactly one valid arrangement is accepted but to_string() fails (direction-type segno,segno -> NotImplementedError; lyric with only extend -> XMLElementChildrenRequired)'},
+    ('C12', 'unique-arrangement-not-serialised[ic]'): {'site': '_check_if_choice_requires_elements / _check_choices_intelligently',
+        'what': 'the same with to_string(intelligent_choice=True)'},
+})
+TEXTS.update({
+    ('C06', 'replacement-not-in-place'): {'site': REPLACE_SLOT + ' (stale parent_xsd_element after intelligent-choice re-homing or duplication)',
+        'what': 'replace_child swaps the new child into a leaf of a discarded container copy: the schema-ordered view keeps the old child (and lacks the new one) although the call returned normally'},
+})
